@@ -171,7 +171,10 @@ def validateExprAttrs (ex : Exprs) (exprs : List Bytes) : Bool :=
     ex.names.all (fun (k, _) => Bytes.isInfixOf k generic && placeholderOk 35 k) &&
     ex.values.all (fun (k, _) => Bytes.isInfixOf k generic && placeholderOk 58 k)
 
-def nativeKey (table expr : Bytes) : Bytes := table ++ [124] ++ Interp.normWS expr
+/-- `newExpressionKey`: Go keys the registration maps by the struct (table name, normalised
+    text); the association lists of the model are keyed by bytes, so the pair is encoded — with the
+    escaping of composite primary keys, which is injective (`Props.C20.nativeKey_inj`) -/
+def nativeKey (table expr : Bytes) : Bytes := Key.escape table ++ 46 :: Interp.normWS expr
 
 /-- the four registries of `interpreter.Native` are one map here, the kind being part of the key -/
 def kindByte : ExprKind → Nat
